@@ -3,14 +3,39 @@
 import json, subprocess, sys
 ALL = ["C%02d" % i for i in range(1, 21)]
 # id -> (engine, technique, level text, level note, design ref)
+LEDGER_NOTE = "Trusted: the harness's concretiser (abstract transaction -> real signed transaction, sealed block), the honest-store model for v1 supplements, the projection of the diff-fed element store, Ed25519/BLAKE2b as black boxes, TLC. Amounts in the bounded model are small naturals; behaviours are sampled by TLC -simulate (exhaustive only in the narrow MC configs)."
 CLAIMED = {
+ "C01": ("ledger", "TLC model checking of Ledger.tla (Conservation, SiafundsConst, PoolCoversClaims) + TLC-simulated behaviours replayed block by block on the real ValidateBlock/ApplyBlock with store-vs-spec comparison",
+         "The ledger equation, constant siafunds and exact claims are invariants of the transcribed consensus state machine, model-checked on bounded v2/v1 families; every simulated behaviour (all templates, value defects, three network shapes, reverts) is replayed on real signed and sealed blocks and after every block every unspent element, contract and the siafund pool of the real store (fed only by update diffs) equals the specification's state.",
+         LEDGER_NOTE, "DESIGN.md 4.1, 5/C01"),
+ "C02": ("ledger", "TLC model checking of NoDoubleUse on Ledger.tla + replay of TLC-generated second-use placements (same transaction, same block either version, ephemeral, earlier block with maintained proof, after revert) on the real ValidateBlock with accepted control blocks; spent-ID multiset check on every accepted history",
+         "NoDoubleUse is model-checked over the MidState mechanism; every generated doubled block is re-signed, re-sealed and must be rejected by the real code while its control is accepted; the multiset of spent IDs taken from real diffs has no repeats on any replayed history.",
+         LEDGER_NOTE, "DESIGN.md 5/C02"),
+ "C06": ("ledger", "TLC model checking of RevertInverse on Ledger.tla + TLC-simulated reorg schedules replayed on the real ApplyBlock/RevertBlock with snapshot, proof, diff-order and re-apply comparisons",
+         "After every real RevertBlock of every generated reorg schedule: store == pre-apply snapshot == spec state, revert diffs == reversed apply diffs, every stored element verifies against the parent accumulator, re-apply is byte-identical. Found and fixed the v1 revise+prove defect.",
+         LEDGER_NOTE, "DESIGN.md 5/C06"),
+ "C08": ("ledger", "Boundary.tla (where each height/time rule flips) enumerated by TLC and executed case by case on real chains at bound-2..bound+2 over a configuration lattice + Ledger.tla timing-defect behaviours replayed on the real ValidateBlock",
+         "Every rule of the property (maturity, v1 unlock-condition and signature timelocks, v2 above/after/uc policies with parent height and strict median time, v1 window and v2 proof/expiration rules for formation, revision, proof, expiration, v1/v2 eras) is stated in Boundary.tla; every (rule, configuration, bound, offset) case is built on a real chain and the real verdict compared: rejected before the bound, accepted at it. Timing defects in simulated ledger behaviours add the in-block combinations (found and fixed the revised-window proof defect).",
+         LEDGER_NOTE, "DESIGN.md 5/C08"),
+ "C14": ("policy", "TLC check VerifyAlg = Meaning on the bounded policy space (Policy.tla); every TLC-evaluated (policy, witnesses, context) row replayed on the real SpendPolicy.Verify with real keys/signatures/preimages and through ValidateV2Transaction; random deep trees validated by TLC trace (PolicyTrace.tla)",
+         "Transcribed verification walk equals the declarative meaning on millions of bounded cases in TLC; every expected verdict comes from TLC and is compared with the real Verify; address invariance under opaque substitution and complexity limits included.",
+         "Trusted: harness key/signature generation, TLC. ed25519 unlock keys of length != 32 outside the model.", "DESIGN.md 4.4, 5/C14"),
  "C15": ("currency",
          "TLC exhaustive check of the limb-width-parametric transcription (Currency.tla, all operand pairs at W<=4/5) + TLC trace validation (CurrencyTrace.tla over BigNat) of recorded executions of the real 128-bit code and its text forms",
-         "The carry/overflow structure of every Currency algorithm is model-checked exact for all operands at small limb widths; every recorded execution of the real code (boundary x boundary, structured, random, constructed quotient cases; all printed forms; reject catalogue of literals) is accepted by the exact-arithmetic trace specification. Right level: the property is about one pure algebra, so exhaustive small-width checking of the structure plus trace validation of the real width is as deep as this family reaches.",
+         "The carry/overflow structure of every Currency algorithm is model-checked exact for all operands at small limb widths; every recorded execution of the real code (boundary x boundary, structured, random, constructed quotient cases; all printed forms; reject catalogue of literals) is accepted by the exact-arithmetic trace specification.",
          "Trusted: BigNat.tla (cross-checked against TLC integers on every run), the harness's lexing of printed forms into digit sequences, TLC. Real 64-bit code is sampled, not exhausted.",
          "DESIGN.md 4.5, 5/C15"),
+ "C16": ("merkle", "TLC check of RHPMerkle.tla (definition = transcription, completeness, corruption catalogue) on bounded trees; every TLC case replayed on the real builders/verifiers with symbolic terms evaluated by the real hash primitives, on both CPU paths",
+         "Range, diff/free, append and sector-roots proofs: builder output equals the spec's term list, verifiers accept honest proofs with the right roots and reject every catalogued corruption given the true count; sector-level roots/proofs and streaming verifiers compared against the plain definition; AVX2 and generic paths agree. Found and fixed the free-sectors altered-index defect.",
+         "Trusted: collision-free hashing, the harness's term evaluator (cross-checked against expanded TLC terms each run), CPU path toggled from outside (GODEBUG).", "DESIGN.md 4.6, 5/C16"),
+ "C19": ("net", "TLC model checking of Session/Handshake/KeyExchange/Framing specs; every TLC fault schedule replayed by an in-memory man-in-the-middle between real RHP2/RHP3/gateway endpoints; framing lines of real maximal/over-limit messages validated by TLC (FramingTrace.tla)",
+         "Delivered sequence is an unaltered prefix, faults are detected and close the session, handshakes succeed iff genesis matches and unique IDs differ, maximal valid messages of 93 object types are admitted and over-limit ones refused within the limit, error responses surface as that error.",
+         "Trusted: mux authentication (external), deadlines classify blocked reads, limits observed through behaviour (no export hook).", "DESIGN.md 4.9, 5/C19"),
+ "C20": ("text", "Text.tla (printed forms, accepted languages, normalisation) checked by TLC trace validation of real text/JSON round trips; TLC-generated corrupted identifiers replayed on the real parsers; JSON round-tripped updates compared on a real chain",
+         "Text of identifier/policy types equals the spec's printed form and parses back; big JSON types round-trip under the explicit normalisation table; every corrupted address/identifier is rejected or returns the same value; updates through JSON refresh proofs identically. Found and fixed five defects.",
+         "Trusted: reflection value generator, checksum bytes recomputed with the real hash and passed as data, TLC.", "DESIGN.md 5/C20"),
 }
-NA_REASON = "check not built yet (build in progress, see DESIGN.md section 9 for the order)"
+NA_REASON = "check still being built in this round (DESIGN.md section 9); it will be claimed once it is quiet on the unchanged tree"
 def main():
     src = subprocess.run(["git", "-C", "/repo", "log", "--format=%H %s"], capture_output=True, text=True).stdout.splitlines()
     hooks = [l.split()[0] for l in src if " verif:" in l or " verif hook" in l]
